@@ -83,11 +83,15 @@ pub fn run_case(case: &Case, st: &mut Stats) -> CaseResult {
                         let (px, py) = (sdd_position(x, &info).unwrap(), sdd_position(y, &info).unwrap());
                         let r = vtree_relation(&info, px, py);
                         relations.insert(r);
+                        let (nx, ny) = match op {
+                            SOp::AndDisjointNeg(_, _, a, b) | SOp::OrDisjointNeg(_, _, a, b) => (*a, *b),
+                            _ => (false, false),
+                        };
                         st.bump(&format!(
                             "apply.rel{}.{}{}",
                             r,
-                            if sdd_is_compl(x) { "c" } else { "r" },
-                            if sdd_is_compl(y) { "c" } else { "r" }
+                            if sdd_is_compl(x) ^ nx { "c" } else { "r" },
+                            if sdd_is_compl(y) ^ ny { "c" } else { "r" }
                         ));
                     }
                 }
@@ -100,7 +104,7 @@ pub fn run_case(case: &Case, st: &mut Stats) -> CaseResult {
     recheck(&run.pool, "at the end of the history")?;
     st.flag("case.compression_on", case.compress);
     st.flag("case.compression_off", !case.compress);
-    st.bump(&format!("case.vtree_kind.{}", case.vt.kind % 4));
+    st.bump(&format!("case.vtree_kind.{}", case.vt.kind % 5));
     if relations.len() >= 2 {
         st.mark_nontrivial();
     }
@@ -120,8 +124,33 @@ pub fn case_strategy(max_ops: usize, rebuild: bool) -> BoxedStrategy<Case> {
         Just(false),
         proptest::collection::vec(sop_strategy_ext(true, rebuild, true), 0..=max_ops.min(24)),
     );
+    // wide decision nodes: 7..8 variables, all but 2 or 3 of them left of the root, and a dense random function
+    // first (decision nodes with more than 20 elements arise there and in the operations that follow)
+    let wide = (
+        (7u8..=8, proptest::collection::vec(any::<u16>(), 12), proptest::collection::vec(any::<u16>(), 12)).prop_map(|(k, keys, splits)| VtreeCase {
+            k,
+            keys,
+            kind: 4,
+            splits,
+            stride: 1,
+            offset: 0,
+        }),
+        Just(true),
+        (any::<[u64; 4]>(), proptest::collection::vec(sop_strategy_ext(true, rebuild, true), 0..=max_ops.min(16))).prop_map(|(bits, mut ops)| {
+            ops.insert(0, SOp::Dense(bits));
+            ops
+        }),
+    );
+    // non-contiguous leaf labels (holes in the vtree manager's label table): <= 3 leaves, labels i*stride+offset <= 7
+    let sparse = (
+        (1u8..=3, proptest::collection::vec(any::<u16>(), 12), 0u8..5, proptest::collection::vec(any::<u16>(), 12), 2u8..=3, 0u8..=1).prop_map(
+            |(k, keys, kind, splits, stride, offset)| VtreeCase { k, keys, kind, splits, stride, offset },
+        ),
+        any::<bool>(),
+        proptest::collection::vec(sop_strategy_ext(true, rebuild, true), 0..=max_ops.min(24)),
+    );
     (
-        prop_oneof![3 => on.boxed(), 1 => off.boxed()],
+        prop_oneof![9 => on.boxed(), 3 => off.boxed(), 1 => wide.boxed(), 1 => sparse.boxed()],
         prop_oneof![2 => Just(None), 6 => (1u16..=32).prop_map(Some)],
         proptest::collection::vec(any::<u16>(), 3),
     )
@@ -138,7 +167,7 @@ pub fn case_strategy(max_ops: usize, rebuild: bool) -> BoxedStrategy<Case> {
 impl SubCheckT for Hist {
     type Case = Case;
     const NAME: &'static str = "history";
-    const RULE: &'static str = "random vtree over 1..8 variables (right-linear, left-linear, balanced, random splits; random leaf order) x compression on (<=8 variables) / off (<=4 variables, <=24 ops) x unique tables default or 1..32 slots x <=40 operations (literals, not, and, or, xor, iff, ite, condition, exists, compose, and dense functions given by a whole random truth table and built by Shannon expansion, so that decision nodes with >20 elements occur): every returned SDD is read element by element (prime/sub pairs, binary nodes, complement bits) into a truth table and compared with the oracle; the pool is re-read at 3 checkpoints and at the end. Non-trivial: and/or applications with a decision-node operand and a non-constant second operand in >=2 of the four vtree relations (same node, left descendant, right descendant, independent), the relation being computed from the vtree shape";
+    const RULE: &'static str = "random vtree over 1..8 variables (right-linear, left-linear, balanced, random splits, wide root; random leaf order; a family with non-contiguous labels over <=3 leaves) x compression on (<=8 variables) / off (<=4 variables, <=24 ops) x unique tables default or 1..32 slots x <=40 operations (literals, not, and, or, xor, iff, ite, condition, exists, compose, and dense functions given by a whole random truth table and built by Shannon expansion, so that decision nodes with >20 elements occur): every returned SDD is read element by element (prime/sub pairs, binary nodes, complement bits) into a truth table and compared with the oracle; the pool is re-read at 3 checkpoints and at the end. Non-trivial: and/or applications with a decision-node operand and a non-constant second operand in >=2 of the four vtree relations (same node, left descendant, right descendant, independent), the relation being computed from the vtree shape";
     fn cases(tier: Tier) -> u32 {
         tier.pick(20_000, 250_000)
     }
